@@ -34,6 +34,8 @@ func runC02(c *core.Ctx) {
 	c.RuleDoc("R02.15", "positioned methods, Truncate, Stat and Chmod never store the handle's offset")
 	c.RuleDoc("R02.17", "a sequential read/write stores the offset on every path after its positioned call")
 	c.RuleDoc("R02.18", "the window of the content a positioned read selects starts at or before the end of the content (an offset past the end answers EOF, not a bounds error)")
+	c.RuleDoc("R02.19", "Truncate reaches no test of the O_APPEND flag (ftruncate ignores O_APPEND)")
+	c.RuleDoc("R02.20", "a positioned method succeeds only on a path that tested its offset/size or handed it to the method that does")
 	c.RuleDoc("R02.16", "write methods copy the caller's bytes, they never store the buffer")
 	c.RuleDoc("R02.12", "a mutation whose write-back fails is undone")
 	c.RuleDoc("R02.8", "a positioned write refuses a handle opened with O_APPEND")
@@ -57,6 +59,8 @@ func runC02(c *core.Ctx) {
 		r02OffsetWriters(c, p, fileT)
 		r02SequentialAdvances(c, p, fileT)
 		r02WindowStartsInside(c, p, fileT)
+		r02TruncateIgnoresAppend(c, p, fileT)
+		r02OffsetValidatedOnSuccess(c, p)
 		r02NoAdopt(c, p, fileT, "R02.16")
 		r02SeekValidates(c, p, fileT)
 		r02FailedSaveRestores(c, p, fileT)
@@ -79,6 +83,8 @@ func runC02(c *core.Ctx) {
 	c.Floor("R02.16", 3)
 	c.Floor("R02.17", 2)
 	c.Floor("R02.18", 1)
+	c.Floor("R02.19", 1)
+	c.Floor("R02.20", 8)
 }
 
 func blobFuncs(p *load.Program, names ...string) map[*ssa.Function]bool {
@@ -832,7 +838,6 @@ func r02StoreKeepsBlob(c *core.Ctx, p *load.Program) {
 		fmt.Sprintf("mem.(*store).set stores something else than the contents blob it was given (%s): the record no longer shares the blob that open handles mutate in place, so a handle opened between two writes of another handle keeps reading the old bytes and size", other))
 }
 
-
 // r02FailedSaveRestores (R02.12)
 func r02FailedSaveRestores(c *core.Ctx, p *load.Program, fileT *types.Named) {
 	mut := blobFuncs(p, "Set", "Grow", "Truncate")
@@ -1393,5 +1398,97 @@ func r02WindowStartsInside(c *core.Ctx, p *load.Program, fileT *types.Named) {
 			c.Check(b.LE(t, ssax.Term{Sym: "LEN(content)"}, 0), "R02.18", key, p.Pos(cl.Pos()), "the window's start is at most the content length by dominating guards",
 				fmt.Sprintf("%s selects a window of the content starting at its offset parameter, and no dominating comparison bounds that offset by the content's length: a read at an offset past the end reaches the blob, which answers a bounds error where the file must answer (0, io.EOF)", fname(fn)))
 		})
+	}
+}
+
+// r02TruncateIgnoresAppend (R02.19): no function reachable from the handle's Truncate (package keyvalue, three levels)
+// branches on the O_APPEND bit. Growing a file "by writing its new last byte" through the positioned-write path sends
+// that byte to the current end on an O_APPEND handle: the file grows by one byte instead of to the requested size.
+func r02TruncateIgnoresAppend(c *core.Ctx, p *load.Program, fileT *types.Named) {
+	appendK := constOf(p, "FlagAppend")
+	fn := methodsOf(p, fileT)["Truncate"]
+	if fn == nil || appendK == 0 {
+		c.Hard("anchor: keyvalue.file.Truncate / FlagAppend")
+		return
+	}
+	bad := ""
+	seen := map[*ssa.Function]bool{}
+	var visit func(f *ssa.Function, d int)
+	visit = func(f *ssa.Function, d int) {
+		if f == nil || seen[f] || f.Blocks == nil || d > 3 || f.Pkg != fn.Pkg {
+			return
+		}
+		seen[f] = true
+		for _, b := range f.Blocks {
+			if ifi, ok := b.Instrs[len(b.Instrs)-1].(*ssa.If); ok && mentionsConst(ifi.Cond, appendK, 0) && bad == "" {
+				bad = fname(f) + " at " + p.Pos(ifi.Cond.Pos())
+			}
+			for _, ins := range b.Instrs {
+				if ci, ok := ins.(ssa.CallInstruction); ok {
+					visit(ssax.StaticCallee(ci), d+1)
+				}
+			}
+		}
+	}
+	visit(fn, 0)
+	c.Check(bad == "", "R02.19", typeKey(fileT)+".Truncate|independent-of-O_APPEND", p.Pos(fn.Pos()), "no test of the append flag is reachable from Truncate",
+		fmt.Sprintf("%s reaches a test of the O_APPEND flag (%s): Truncate(size) on a handle opened with O_APPEND would be redirected like a write — the file grows by what the redirected write adds instead of to 'size' (ftruncate ignores O_APPEND)", fname(fn), bad))
+}
+
+// r02OffsetValidatedOnSuccess (R02.20): in ReadAt / WriteAt / ReadBlobAt / WriteBlobAt / Truncate of every handle
+// type of package keyvalue, each path to a return whose error is the constant nil has passed a comparison of the
+// int64 offset/size parameter, or a call that receives it (the method that validates it). A short-cut return in front
+// ("empty buffer: nothing to do") answers (0, nil) for a negative offset and on a closed handle, where os.File fails.
+func r02OffsetValidatedOnSuccess(c *core.Ctx, p *load.Program) {
+	want := map[string]bool{"ReadAt": true, "WriteAt": true, "ReadBlobAt": true, "WriteBlobAt": true, "Truncate": true}
+	for _, fn := range pkgFuncs(p, "keyvalue") {
+		if fn.Parent() != nil || fn.Signature.Recv() == nil || !want[fn.Name()] || fn.Blocks == nil || fn.Synthetic != "" {
+			continue
+		}
+		eidx := ssax.ErrorResultIndex(fn.Signature)
+		var prm *ssa.Parameter
+		for _, q := range fn.Params[1:] {
+			if bt, ok := q.Type().Underlying().(*types.Basic); ok && bt.Kind() == types.Int64 {
+				prm = q
+			}
+		}
+		if eidx < 0 || prm == nil {
+			continue
+		}
+		uses := func(v ssa.Value) bool { return dependsOn(v, func(x ssa.Value) bool { return x == ssa.Value(prm) }) }
+		bad := ""
+		complete := ssax.EnumPaths(fn, fn.Blocks[0], 0, ssax.NewPathState(), ssax.PathHooks{
+			Branch: func(ps *ssax.PathState, cond ssa.Value, taken bool) {
+				if bo, ok := cond.(*ssa.BinOp); ok && (uses(bo.X) || uses(bo.Y)) {
+					ps.Counts["validated"] = 1
+				}
+			},
+			Instr: func(ps *ssax.PathState, ins ssa.Instruction) {
+				if ci, ok := ins.(ssa.CallInstruction); ok {
+					for _, a := range ci.Common().Args {
+						if uses(a) {
+							ps.Counts["validated"] = 1
+						}
+					}
+				}
+			},
+			End: func(ps *ssax.PathState, last ssa.Instruction) {
+				r, ok := last.(*ssa.Return)
+				if !ok || bad != "" || ps.Counts["validated"] == 1 {
+					return
+				}
+				if e := ps.Resolve(resolveSpilledOnPath(r.Results[eidx], r, ps)); ssax.IsNilConst(e) {
+					bad = p.Pos(r.Pos())
+				}
+			},
+		})
+		key := fname(fn) + "|success-only-after-the-offset-was-examined"
+		switch {
+		case !complete:
+			c.Unknown("R02.20", key, p.Pos(fn.Pos()), "path enumeration exceeded its cap")
+		default:
+			c.Check(bad == "", "R02.20", key, p.Pos(fn.Pos()), "every nil-error return follows a test of the offset/size or the call that makes it",
+				fmt.Sprintf("%s returns success at %s on a path that neither examined %s nor handed it on: a negative %s (and a closed handle) is answered with (0, nil) where os.File fails", fname(fn), bad, prm.Name(), prm.Name()))
+		}
 	}
 }
